@@ -172,65 +172,78 @@ func c09Documents(r *core.R) {
 	defer os.RemoveAll(scratch)
 	roles := []string{"page content", "second content stream", "form xobject", "image", "metadata", "embedded file", "font file", "unreferenced stream", "object stream body", "xref stream data",
 		"page content with predictor", "object stream body with predictor", "xref stream data with predictor"}
-	const L = 16 << 10
 	type lim struct {
-		name              string
-		decode, stream    int64
+		name           string
+		decode, stream int64
 	}
-	for _, role := range roles {
-		for _, n := range []int{L, L + 1, 1024 * L} {
-			doc := c09BombDoc(role, n)
-			for _, lm := range []lim{{"MaxDecodeBytes=16KiB", L, 512 << 20}, {"default limits", 512 << 20, 512 << 20}} {
-				for _, ep := range c09Entries() {
-					if r.Expired() {
-						r.Cut("deadline in layer 3")
-						return
-					}
-					conf := newConf()
-					conf.ValidationMode = model.ValidationRelaxed
-					conf.Limits.MaxDecodeBytes = lm.decode
-					conf.Limits.MaxStreamBytes = lm.stream
-					out := filepath.Join(scratch, "out")
-					os.RemoveAll(out)
-					os.MkdirAll(out, 0o755)
-					var ctx *model.Context
-					var err error
-					var pv any
-					alloc := measured(func() {
-						pv, _ = core.Try(func() { ctx, err = ep.run(doc, conf, out) })
-					})
-					r.Eval(1)
-					over := int64(n) > lm.decode
-					if over {
-						r.Nontrivial(1)
-						if ep.name == "Optimize" && n > 2*L {
-							r.Sample(map[string]any{"layer": "document", "role": role, "decoded_size": n, "limits": lm.name, "entry_point": ep.name, "error": trimTo(fmt.Sprint(err), 200), "allocated": alloc})
+	Ls := []int{16 << 10}
+	if !r.Quick() {
+		Ls = []int{16 << 10, 4 << 10, 256 << 10}
+	}
+	for _, L := range Ls {
+		for _, role := range roles {
+			sizes := []int{L, L + 1, 1024 * L}
+			if L == 256<<10 {
+				sizes = []int{L, L + 1, 128 * L}
+			}
+			for _, n := range sizes {
+				doc := c09BombDoc(role, n)
+				lims := []lim{{fmt.Sprintf("MaxDecodeBytes=%dKiB", L>>10), int64(L), 512 << 20}}
+				if L == 16<<10 {
+					lims = append(lims, lim{"default limits", 512 << 20, 512 << 20})
+				}
+				for _, lm := range lims {
+					for _, ep := range c09Entries() {
+						if r.Expired() {
+							r.Cut("deadline in layer 3")
+							return
 						}
-					}
-					rep := map[string]any{"layer": "document", "role": role, "decoded_size": n, "limits": lm.name, "entry_point": ep.name}
-					what := fmt.Sprintf("%s of %d decoded bytes, %s, %s", role, n, lm.name, ep.name)
-					key := role + ":" + ep.name
-					if pv != nil {
-						r.Violation("panic:"+key, fmt.Sprintf("%s: panic: %v", what, pv), rep)
-						continue
-					}
-					if ctx != nil {
-						if w := c09ScanContext(ctx, lm.decode, lm.stream); w != "" {
-							r.Violation("context-holds-oversized-stream:"+key, fmt.Sprintf("%s: %s", what, w), rep)
+						conf := newConf()
+						conf.ValidationMode = model.ValidationRelaxed
+						conf.Limits.MaxDecodeBytes = lm.decode
+						conf.Limits.MaxStreamBytes = lm.stream
+						out := filepath.Join(scratch, "out")
+						os.RemoveAll(out)
+						os.MkdirAll(out, 0o755)
+						var ctx *model.Context
+						var err error
+						var pv any
+						alloc := measured(func() {
+							pv, _ = core.Try(func() { ctx, err = ep.run(doc, conf, out) })
+						})
+						r.Eval(1)
+						over := int64(n) > lm.decode
+						if over {
+							r.Nontrivial(1)
+							if ep.name == "Optimize" && n > 2*L {
+								r.Sample(map[string]any{"layer": "document", "role": role, "decoded_size": n, "limits": lm.name, "entry_point": ep.name, "error": trimTo(fmt.Sprint(err), 200), "allocated": alloc})
+							}
 						}
-					}
-					if !over {
-						if err != nil && errors.Is(err, filter.ErrDecodeLimitExceeded) {
-							r.Violation("within-limit-rejected:"+key, fmt.Sprintf("%s: rejected with a limit error although within the limit: %v", what, err), rep)
+						rep := map[string]any{"layer": "document", "role": role, "decoded_size": n, "limits": lm.name, "entry_point": ep.name}
+						what := fmt.Sprintf("%s of %d decoded bytes, %s, %s", role, n, lm.name, ep.name)
+						key := role + ":" + ep.name
+						if pv != nil {
+							r.Violation("panic:"+key, fmt.Sprintf("%s: panic: %v", what, pv), rep)
+							continue
 						}
-						continue
-					}
-					bound := uint64(64*(int(lm.decode)+len(doc)) + 8<<20)
-					if lm.decode == L && alloc > bound {
-						r.Violation("allocation-unbounded:"+key, fmt.Sprintf("%s: the call allocated %d bytes (bound %d = 64 x (limit + input %d) + 8 MiB): the stream was decoded beyond the configured limit (returned error: %v)", what, alloc, bound, len(doc), err), rep)
-					}
-					if err != nil && !errors.Is(err, filter.ErrDecodeLimitExceeded) && strings.Contains(err.Error(), "limit") {
-						r.Count("limit_errors_not_matching_ErrDecodeLimitExceeded", 1)
+						if ctx != nil {
+							if w := c09ScanContext(ctx, lm.decode, lm.stream); w != "" {
+								r.Violation("context-holds-oversized-stream:"+key, fmt.Sprintf("%s: %s", what, w), rep)
+							}
+						}
+						if !over {
+							if err != nil && errors.Is(err, filter.ErrDecodeLimitExceeded) {
+								r.Violation("within-limit-rejected:"+key, fmt.Sprintf("%s: rejected with a limit error although within the limit: %v", what, err), rep)
+							}
+							continue
+						}
+						bound := uint64(64*(int(lm.decode)+len(doc)) + 8<<20)
+						if lm.decode == int64(L) && alloc > bound {
+							r.Violation("allocation-unbounded:"+key, fmt.Sprintf("%s: the call allocated %d bytes (bound %d = 64 x (limit + input %d) + 8 MiB): the stream was decoded beyond the configured limit (returned error: %v)", what, alloc, bound, len(doc), err), rep)
+						}
+						if err != nil && !errors.Is(err, filter.ErrDecodeLimitExceeded) && strings.Contains(err.Error(), "limit") {
+							r.Count("limit_errors_not_matching_ErrDecodeLimitExceeded", 1)
+						}
 					}
 				}
 			}
